@@ -354,4 +354,93 @@ theorem nf_near {res e : ℝ → ℝ} {J P B off x : ℝ} (hres : ∀ k, res k =
   rw [abs_le]
   constructor <;> nlinarith [a.1, a.2, b.1, b.2]
 
+/-! ### shapes of generated term lists (decidable facts about the regenerated data) -/
+
+/-- everything of a term but its leading amplitude: E-multiplicity, sin/cos, argument, `t`-slope -/
+def termShape (tm : Term) : Nat × Fn × AExp × Option Dec := (tm.epow, tm.fn, tm.arg, tm.c1)
+
+/-- `|a - b| ≤ 10^(-k)` for two decimal literals, in integer arithmetic -/
+def decClose (k : Nat) (a b : Dec) : Bool :=
+  decide ((a.m * 10 ^ b.e - b.m * 10 ^ a.e).natAbs * 10 ^ k ≤ 10 ^ (a.e + b.e))
+
+/-- `|a| = |b|` for two decimal literals -/
+def decAbsEq (a b : Dec) : Bool := decide (a.m.natAbs * 10 ^ b.e = b.m.natAbs * 10 ^ a.e)
+
+/-! ### ranges of the angular outputs -/
+
+theorem to_positive_range {v : ℝ} (h : |v| < 360) : 0 ≤ to_positive v ∧ to_positive v < 360 := by
+  have hv := abs_lt.mp h
+  unfold to_positive plt ple pabs
+  have e0 : (0.0 : ℝ) = 0 := by norm_num
+  have e360 : (360.0 : ℝ) = 360 := by norm_num
+  rw [e0, e360]
+  by_cases hneg : v < 0
+  · have ha : |v| = -v := abs_of_neg hneg
+    have hd : ¬ ((360 : ℝ) ≤ 360 - |v|) := by rw [ha]; linarith
+    simp only [hneg, decide_true, if_true, hd, decide_false, Bool.false_eq_true, if_false]
+    rw [ha]; constructor <;> linarith [hv.1]
+  · simp only [hneg, decide_false, Bool.false_eq_true, if_false]
+    exact ⟨not_lt.mp hneg, hv.2⟩
+
+theorem pdegrees_atan2_range (y x : ℝ) : -180 < pdegrees (patan2 y x) ∧ pdegrees (patan2 y x) ≤ 180 := by
+  unfold pdegrees patan2
+  have h1 := Complex.neg_pi_lt_arg ⟨x, y⟩
+  have h2 := Complex.arg_le_pi ⟨x, y⟩
+  have hpi := Real.pi_pos
+  have e : ∀ a : ℝ, a * (180 / Real.pi) = a / Real.pi * 180 := by intro a; ring
+  rw [e]
+  have a1 : -1 < Complex.arg ⟨x, y⟩ / Real.pi := by rw [lt_div_iff₀ hpi]; linarith
+  have a2 : Complex.arg ⟨x, y⟩ / Real.pi ≤ 1 := by rw [div_le_iff₀ hpi]; linarith
+  constructor <;> linarith
+
+theorem pdegrees_atan2_nonneg_re (y x : ℝ) (hx : 0 ≤ x) :
+    -90 ≤ pdegrees (patan2 y x) ∧ pdegrees (patan2 y x) ≤ 90 := by
+  unfold pdegrees patan2
+  have h := (Complex.abs_arg_le_pi_div_two_iff (z := ⟨x, y⟩)).mpr hx
+  have h' := abs_le.mp h
+  have hpi := Real.pi_pos
+  have e : ∀ a : ℝ, a * (180 / Real.pi) = a / Real.pi * 180 := by intro a; ring
+  rw [e]
+  have a1 : -(1/2 : ℝ) ≤ Complex.arg ⟨x, y⟩ / Real.pi := by rw [le_div_iff₀ hpi]; linarith [h'.1]
+  have a2 : Complex.arg ⟨x, y⟩ / Real.pi ≤ 1/2 := by rw [div_le_iff₀ hpi]; linarith [h'.2]
+  constructor <;> linarith
+
+theorem position_bright_limb_range (a0 d0 a d : ℝ) :
+    0 ≤ position_bright_limb a0 d0 a d ∧ position_bright_limb a0 d0 a d < 360 := by
+  unfold position_bright_limb angle_of_rad
+  simp only
+  have r := pdegrees_atan2_range (pcos (pradians d0) * psin (pradians a0 - pradians a))
+    (psin (pradians d0) * pcos (pradians d) - pcos (pradians d0) * psin (pradians d) * pcos (pradians a0 - pradians a))
+  have hlt : |pdegrees (patan2 (pcos (pradians d0) * psin (pradians a0 - pradians a))
+    (psin (pradians d0) * pcos (pradians d) - pcos (pradians d0) * psin (pradians d) * pcos (pradians a0 - pradians a)))| < 360 := by
+    rw [abs_lt]; constructor <;> linarith [r.1, r.2]
+  rw [reduce_deg_of_lt hlt]
+  exact to_positive_range hlt
+
+theorem ecliptical2equatorial_range (lon lat eps : ℝ) :
+    ∃ ra dec : ℝ, ecliptical2equatorial lon lat eps = .ok (ra, dec) ∧ 0 ≤ ra ∧ ra < 360 ∧ -90 ≤ dec ∧ dec ≤ 90 := by
+  unfold ecliptical2equatorial angle_of_rad
+  simp only
+  refine ⟨_, _, rfl, ?_⟩
+  generalize hy : pcos (pradians lat) * psin (pradians lon) * pcos (pradians eps) - psin (pradians lat) * psin (pradians eps) = y
+  generalize hx : pcos (pradians lat) * pcos (pradians lon) = x
+  generalize hz : psin (pradians lat) * pcos (pradians eps) + pcos (pradians lat) * psin (pradians eps) * psin (pradians lon) = z
+  have r := pdegrees_atan2_range y x
+  have hlt : |pdegrees (patan2 y x)| < 360 := by rw [abs_lt]; constructor <;> linarith [r.1, r.2]
+  have q := pdegrees_atan2_nonneg_re z (psqrt (x * x + y * y)) (by unfold psqrt; exact Real.sqrt_nonneg _)
+  have hlt2 : |pdegrees (patan2 z (psqrt (x * x + y * y)))| < 360 := by rw [abs_lt]; constructor <;> linarith [q.1, q.2]
+  rw [reduce_deg_of_lt hlt, reduce_deg_of_lt hlt2]
+  have tp := to_positive_range hlt
+  exact ⟨tp.1, tp.2, q.1, q.2⟩
+
+/-- exact ties go to the even neighbour (Python's `round`) -/
+theorem mround_half_even (n : ℤ) : mround ((n : ℝ) + 1 / 2) = if n % 2 = 0 then n else n + 1 := by
+  have hf : ⌊(n : ℝ) + 1 / 2⌋ = n := by
+    rw [Int.floor_eq_iff]; constructor <;> norm_num
+  unfold mround
+  rw [hf]
+  have e : (n : ℝ) + 1 / 2 - (n : ℝ) = 1 / 2 := by ring
+  rw [e]
+  simp
+
 end Pymeeus.GenR.MoonM
